@@ -244,3 +244,140 @@ func stalledReceive(c *runner.Cfg, res *report.Result, logger *netx.RecLogger) {
 		res.Violate("c03:"+runner.PanicKey(p, stack), fmt.Sprintf("panic in the stalled-receive scenario: %v", p), runner.TrimStack(stack))
 	})
 }
+
+// laggingReceiver: the receiver does not read at all while the sender pushes as much as the window
+// admits (up to the 16 MiB default window, in large messages) and then closes with a payload; the
+// receiver then drains. Everything sent must arrive, in order, followed by the end: the receive queue
+// may hold a whole window.
+func laggingReceiver(c *runner.Cfg, res *report.Result, logger *netx.RecLogger) {
+	type shape struct{ window, size, count int }
+	shapes := []shape{
+		{0, 1<<20 + 1, 12},        // default window (16 MiB), 12 x (1 MiB + 1)
+		{0, 8<<20 - 4, 2},         // two messages fill the default window, the closing payload goes past it
+		{1 << 20, 64<<10 + 3, 15}, // 1 MiB window
+		{4 << 20, 512<<10 - 1, 7}, // 4 MiB window
+		{0, 3<<20 + 7, 5},         // default window, 15 MiB in 5 messages
+		{256 << 10, 100_000, 2},   // small window, messages of a third of it
+	}
+	n := len(shapes)
+	if !c.Thorough() {
+		n = 4
+	}
+	if c.Variant == "race" {
+		n = 1
+	}
+	c.Cases("C03/lag", n, func(idx int, slot *journal.Slot) {
+		sh := shapes[idx%len(shapes)]
+		if c.Variant == "race" {
+			sh = shape{256 << 10, 100_000, 2}
+		}
+		slot.SetString(fmt.Sprintf("C03/lag:%d %+v", idx, sh))
+		res.Eval(1)
+		const reqID = 0x00C3A000
+		var sent atomic.Int64
+		var sendSt atomic.Pointer[string]
+		h := mpx.HandleFunc(func(ctx mpx.Context, ch mpx.Channel) status.Status {
+			if _, st := ch.Receive(ctx); !st.OK() {
+				return status.OK
+			}
+			for i := 0; i < sh.count; i++ {
+				if st := ch.Send(ctx, netx.MakePayload(reqID, 1, uint32(i), sh.size)); !st.OK() {
+					s := fmt.Sprintf("Send %d: %v", i, st)
+					sendSt.Store(&s)
+					return status.OK
+				}
+				sent.Add(1)
+			}
+			if st := ch.SendAndClose(ctx, netx.MakePayload(reqID, 1, uint32(sh.count), 100)); !st.OK() {
+				s := fmt.Sprintf("SendAndClose: %v", st)
+				sendSt.Store(&s)
+				return status.OK
+			}
+			sent.Add(1)
+			return status.OK
+		})
+		srv, addr, err := StartServer(h, logger, Opts(sh.window, 0, 0, 0, false))
+		if err != nil {
+			res.Inconcl("lag %d: %v", idx, err)
+			return
+		}
+		defer StopServer(srv)
+		conn, st := mpx.Connect(noCtx, addr, logger, Opts(sh.window, 0, 0, 0, false))
+		if !st.OK() {
+			res.Inconcl("lag %d: connect: %v", idx, st)
+			return
+		}
+		defer conn.Free()
+		ch, st := conn.Channel(noCtx)
+		if !st.OK() {
+			res.Inconcl("lag %d: channel: %v", idx, st)
+			return
+		}
+		defer ch.Free()
+		if st := ch.Send(noCtx, netx.MakePayload(reqID, 0, 0, 32)); !st.OK() {
+			res.Inconcl("lag %d: request: %v", idx, st)
+			return
+		}
+		// the receiver lags: nothing is read until the sender has pushed all it can
+		Settle(20*time.Second, func() bool {
+			a := sent.Load()
+			time.Sleep(150 * time.Millisecond)
+			return sent.Load() == a && (a > 0 || sendSt.Load() != nil)
+		})
+		pushed := sent.Load()
+		w := map[string]any{"stream": "C03/lag", "index": idx, "window": sh.window, "message_size": sh.size, "messages": sh.count + 1, "sent_before_the_receiver_read_anything": pushed}
+		next := 0
+		done := make(chan string, 1)
+		go func() {
+			for {
+				b, st := ch.Receive(noCtx)
+				if st.Code == status.CodeEnd || st.Code == status.CodeClosed {
+					done <- ""
+					return
+				}
+				if !st.OK() {
+					done <- fmt.Sprintf("Receive: %v", st)
+					return
+				}
+				id, dir, seq, _, full := netx.Describe(b)
+				wantLen := sh.size
+				if next == sh.count {
+					wantLen = 100
+				}
+				if !full || id != reqID || dir != 1 || int(seq) != next || len(b) != wantLen {
+					done <- fmt.Sprintf("position %d carries message %d (len %d, want len %d)", next, seq, len(b), wantLen)
+					return
+				}
+				next++
+			}
+		}()
+		select {
+		case msg := <-done:
+			if msg != "" {
+				w["problem"] = msg
+				res.Violate("c03:lagging-receiver:message-lost-or-reordered", fmt.Sprintf("a receiver that read nothing until the sender had pushed %d messages then got a wrong sequence: %s", pushed, msg), w)
+				return
+			}
+		case <-time.After(Watchdog):
+			w["received"] = next
+			w["goroutines"] = Goroutines(6)
+			res.Violate("c03:lagging-receiver:delivery-stops", fmt.Sprintf("after the lagging receiver started reading, %d of %d messages arrived within %v", next, sh.count+1, Watchdog), w)
+			c.Abort.Store(true)
+			conn.Close()
+			return
+		}
+		if s := sendSt.Load(); s != nil {
+			res.Inconcl("lag %d: %s", idx, *s)
+			return
+		}
+		if next != sh.count+1 {
+			w["received"] = next
+			res.Violate("c03:lagging-receiver:truncated", fmt.Sprintf("the channel ended after %d of %d messages although every Send and the closing SendAndClose returned OK", next, sh.count+1), w)
+			return
+		}
+		res.Nontrivial(rng.HashString(fmt.Sprint("lag", idx, sh)))
+		res.Count("lagging_receiver_bytes_queued_before_first_read", pushed*int64(sh.size))
+	}, func(idx int, p any, stack string) {
+		res.Violate("c03:"+runner.PanicKey(p, stack), fmt.Sprintf("panic in the lagging-receiver scenario: %v", p), runner.TrimStack(stack))
+	})
+}
